@@ -224,6 +224,15 @@ func (c *Ctx) Solve(timeoutMs int, par int, crossCheck bool) {
 			if r.status != "unsat" {
 				o.Output = truncate(r.out, 4000)
 			}
+			if r.status == "unknown" && !o.Vacuity && !strings.Contains(o.goal.S, "(exists ") {
+				// look for a candidate counterexample without the quantified assumptions
+				r2 := runSolvers(c.QueryNoQuant(o), min(5000, timeoutMs), false, solvers[:1])
+				if r2.status == "sat" {
+					o.Model = parseModel(r2.out)
+					o.Candidate = true
+					o.Output = "candidate counterexample (quantified assumptions dropped):\n" + truncate(r2.out, 3000)
+				}
+			}
 			if crossCheck {
 				seen := map[string]bool{}
 				for _, st := range r.all {
